@@ -783,7 +783,7 @@ pub fn c20(case_seed: u64, tier_variants: usize, acc: &mut Acc) {
         let b = r.pick(&HAZARD_BASES).to_string();
         let first = b.lines().next().unwrap().split(' ').next().unwrap().to_string();
         let sigs = vec![Sig { name: first, bits: 8, kind: SigKind::In(InVal::V(0)) }, Sig { name: "Q".into(), bits: 64, kind: SigKind::Out }];
-        (b, sigs, Script { layout: vec![1], values: ValueFn::Unique { salt: 3, narrow: false }, faults: vec![], override_write: false }, 1u64)
+        (b, sigs, Script { layout: vec![1], values: ValueFn::Unique { salt: 3, narrow: false }, faults: vec![], override_write: false, rebuild_signals: false }, 1u64)
     } else {
         let c = corpus_case(&mut r);
         if !preflight_ok(&c, acc) {
